@@ -71,13 +71,17 @@ theorem err_REDECL_NO_SUCH_ATTR : isErrorCode LibErrors.REDECL_NO_SUCH_ATTR = tr
 theorem err_SYNTAX : isErrorCode LibErrors.SYNTAX = true := by decide
 theorem err_UNDEFINED_SCHEMA : isErrorCode LibErrors.UNDEFINED_SCHEMA = true := by decide
 theorem err_REF_NONEXISTENT : isErrorCode LibErrors.REF_NONEXISTENT = true := by decide
+theorem err_ATTRIBUTE_REF_ON_AGGREGATE : isErrorCode LibErrors.ATTRIBUTE_REF_ON_AGGREGATE = true := by decide
+theorem err_ENUM_NO_SUCH_ITEM : isErrorCode LibErrors.ENUM_NO_SUCH_ITEM = true := by decide
+theorem err_UNDEFINED_ATTR : isErrorCode LibErrors.UNDEFINED_ATTR = true := by decide
+theorem warn_CASE_SKIP_LABEL : isErrorCode LibErrors.CASE_SKIP_LABEL = false := by decide
 theorem warn_WRONG_ARG_COUNT : isErrorCode LibErrors.WRONG_ARG_COUNT = false := by decide
 theorem warn_WARN_SMALL_REAL : isErrorCode LibErrors.WARN_SMALL_REAL = false := by decide
 theorem warn_UNIQUE_QUAL_REDECL : isErrorCode LibErrors.UNIQUE_QUAL_REDECL = false := by decide
 
 /-- evaluates `hasError` / `isErrorCode` on lists of `mk` diagnostics with concrete codes -/
 macro "errsimp" : tactic =>
-  `(tactic| simp [hasError_cons, hasError_nil, mk_code, err_DUPLICATE_DECL, err_NOT_A_TYPE, err_UNDEFINED_TYPE, err_MISSING_SUPERTYPE, err_OVERLOADED_ATTR, err_UNDEFINED_FUNC, err_MISSING_SELF, err_UNKNOWN_ATTR_IN_ENTITY, err_UNDEFINED, err_GROUP_REF_UNEXPECTED_TYPE, err_ATTRIBUTE_REF_FROM_NON_ENTITY, err_INVERSE_BAD_ENTITY, err_INVERSE_BAD_ATTR, err_UNKNOWN_SUPERTYPE, err_UNKNOWN_SUBTYPE, err_SUPERTYPE_RESOLVE, err_SUBTYPE_RESOLVE, err_SUBSUPER_LOOP, err_SUBSUPER_CONTINUATION, err_SELECT_LOOP, err_SELECT_CONTINUATION, err_TYPE_IS_ENTITY, err_CIRCULAR_REFERENCE, err_REDECL_NO_SUCH_SUPERTYPE, err_REDECL_NO_SUCH_ATTR, err_SYNTAX, err_UNDEFINED_SCHEMA, err_REF_NONEXISTENT, warn_WRONG_ARG_COUNT, warn_WARN_SMALL_REAL, warn_UNIQUE_QUAL_REDECL])
+  `(tactic| simp [hasError_cons, hasError_nil, mk_code, err_DUPLICATE_DECL, err_NOT_A_TYPE, err_UNDEFINED_TYPE, err_MISSING_SUPERTYPE, err_OVERLOADED_ATTR, err_UNDEFINED_FUNC, err_MISSING_SELF, err_UNKNOWN_ATTR_IN_ENTITY, err_UNDEFINED, err_GROUP_REF_UNEXPECTED_TYPE, err_ATTRIBUTE_REF_FROM_NON_ENTITY, err_INVERSE_BAD_ENTITY, err_INVERSE_BAD_ATTR, err_UNKNOWN_SUPERTYPE, err_UNKNOWN_SUBTYPE, err_SUPERTYPE_RESOLVE, err_SUBTYPE_RESOLVE, err_SUBSUPER_LOOP, err_SUBSUPER_CONTINUATION, err_SELECT_LOOP, err_SELECT_CONTINUATION, err_TYPE_IS_ENTITY, err_CIRCULAR_REFERENCE, err_REDECL_NO_SUCH_SUPERTYPE, err_REDECL_NO_SUCH_ATTR, err_SYNTAX, err_UNDEFINED_SCHEMA, err_REF_NONEXISTENT, warn_WRONG_ARG_COUNT, warn_WARN_SMALL_REAL, warn_UNIQUE_QUAL_REDECL, err_ATTRIBUTE_REF_ON_AGGREGATE, err_ENUM_NO_SUCH_ITEM, err_UNDEFINED_ATTR, warn_CASE_SKIP_LABEL])
 
 /-! ### duplicate declarations in one scope (`DICTdefine`) -/
 
@@ -504,15 +508,214 @@ theorem varFind_iff (s : Schema) (an : String) (fuel : Nat) (en : String) (hf : 
 /-- `attr` is declared by `e` or by an entity reachable from it through `SUBTYPE OF` (the marked search of `VARfind`) -/
 def BareVisible (s : Schema) (fuel : Nat) (e : Entity) (an : String) : Prop := varFind s an fuel e.name = true
 
+/-! ### `operand.field` (EXPresolve_op_dot) and calls with argument lists -/
+
+/-- the operand knows the field: an entity connected to it declares it / the enumeration has the item / a member of the select
+    knows it, or — select only — every member is an enumeration (then the tool only warns) -/
+def OperandWF (s : Schema) (fuel : Nat) (field : String) (t : TypeRef) : Prop :=
+  match operandKind s fuel t with
+  | .simple => False
+  | .aggregate => False
+  | .entity n => linkFind s field fuel n = true
+  | .enumeration _ items => items.any (·.1 = field) = true
+  | .select items => selectHas s field fuel items = true ∨ ∀ i ∈ items, isEnumType s fuel i.1 = true
+  | .unknown => True
+
+theorem operand_noError_iff (p : String) (s : Schema) (fuel : Nat) (r : Rule) (field : String) (t : TypeRef) :
+    hasError (operandDiags p s fuel r field t) = false ↔ OperandWF s fuel field t := by
+  simp only [operandDiags, OperandWF]
+  cases operandKind s fuel t with
+  | simple => simp only [iff_false, Bool.not_eq_false]; errsimp
+  | aggregate => simp only [iff_false, Bool.not_eq_false]; errsimp
+  | entity n =>
+    simp only
+    cases linkFind s field fuel n with
+    | true => simp [hasError_nil]
+    | false => simp only [Bool.false_eq_true, if_false, iff_false, Bool.not_eq_false]; errsimp
+  | enumeration tn items =>
+    simp only
+    cases items.any (fun x => x.1 = field) with
+    | true => simp [hasError_nil]
+    | false => simp only [Bool.false_eq_true, if_false, iff_false, Bool.not_eq_false]; errsimp
+  | select items =>
+    simp only
+    cases selectHas s field fuel items with
+    | true => simp [hasError_nil]
+    | false =>
+      simp only [Bool.false_eq_true, if_false, false_or]
+      cases hall : items.all (fun i => isEnumType s fuel i.1) with
+      | true =>
+        simp only [if_true]
+        have hth : ∀ i ∈ items, isEnumType s fuel i.1 = true := by simpa [List.all_eq_true] using hall
+        refine ⟨fun _ => hth, fun _ => ?_⟩
+        errsimp
+      | false =>
+        have : ¬ ∀ i ∈ items, isEnumType s fuel i.1 = true := by
+          intro h
+          have : items.all (fun i => isEnumType s fuel i.1) = true := by simpa [List.all_eq_true] using h
+          rw [this] at hall; cases hall
+        simp only [Bool.false_eq_true, if_false, this, iff_false, Bool.not_eq_false]
+        errsimp
+  | unknown => simp [hasError_nil]
+
+/-- **an undefined attribute on a SELECT-typed operand is an ERROR ⇔ some member of the select is not an enumeration** — stated
+    through membership, hence for every order of the member list -/
+theorem select_undefined_attr_iff (p : String) (s : Schema) (fuel : Nat) (r : Rule) (field : String) (t : TypeRef)
+    (items : List (String × Nat)) (hk : operandKind s fuel t = .select items) (hno : selectHas s field fuel items = false) :
+    hasError (operandDiags p s fuel r field t) = true ↔ ∃ i ∈ items, isEnumType s fuel i.1 = false := by
+  have h := operand_noError_iff p s fuel r field t
+  simp only [OperandWF, hk, hno, Bool.false_eq_true, false_or] at h
+  constructor
+  · intro he
+    apply Classical.byContradiction
+    intro hne
+    have hall : ∀ i ∈ items, isEnumType s fuel i.1 = true := by
+      intro i hi
+      cases hv : isEnumType s fuel i.1 with
+      | true => rfl
+      | false => exact absurd ⟨i, hi, hv⟩ hne
+    rw [h.mpr hall] at he; cases he
+  · rintro ⟨i, hi, hv⟩
+    cases he : hasError (operandDiags p s fuel r field t) with
+    | true => rfl
+    | false => have := h.mp he i hi; rw [hv] at this; cases this
+
+/-- a leaf of the select (through nested selects) that is not an enumeration -/
+inductive NonEnumLeaf (s : Schema) (fuel : Nat) : List (String × Nat) → Prop
+  | here {items : List (String × Nat)} {i : String × Nat} : i ∈ items → isEnumType s fuel i.1 = false →
+      (∀ td, findType s i.1 = some td → ∀ its, td.body ≠ .select its) → NonEnumLeaf s fuel items
+  | deeper {items its : List (String × Nat)} {i : String × Nat} {td : TypeDecl} : i ∈ items → findType s i.1 = some td →
+      td.body = .select its → NonEnumLeaf s fuel its → NonEnumLeaf s fuel items
+
+theorem isEnumType_select_false (s : Schema) (n : String) (td : TypeDecl) (its : List (String × Nat))
+    (hf : findType s n = some td) (hb : td.body = .select its) : ∀ fuel, isEnumType s fuel n = false
+  | 0 => rfl
+  | k + 1 => by simp [isEnumType, hf, hb]
+
+/-- a select with a non-enumeration leaf anywhere below has a member that is not an enumeration (the leaf itself, or the nested
+    select that contains it) -/
+theorem nonEnumLeaf_member {s : Schema} {fuel : Nat} {items : List (String × Nat)} (h : NonEnumLeaf s fuel items) :
+    ∃ i ∈ items, isEnumType s fuel i.1 = false := by
+  cases h with
+  | here hi hv _ => exact ⟨_, hi, hv⟩
+  | deeper hi hf hb _ => exact ⟨_, hi, isEnumType_select_false s _ _ _ hf hb fuel⟩
+
+def DotWF (s : Schema) (fuel : Nat) (e : Entity) (attr field : String) (indexed : Bool) : Prop :=
+  match attrTypeOf s fuel e.name attr with
+  | none => False
+  | some ty => OperandWF s fuel field (dotOperand ty indexed)
+
+theorem dot_noError_iff (p : String) (s : Schema) (fuel : Nat) (e : Entity) (r : Rule) (a f : String) (ix : Bool) :
+    hasError (dotDiags p s fuel e r a f ix) = false ↔ DotWF s fuel e a f ix := by
+  simp only [dotDiags, DotWF]
+  cases attrTypeOf s fuel e.name a with
+  | none => simp only [iff_false, Bool.not_eq_false]; errsimp
+  | some ty => exact operand_noError_iff p s fuel r f _
+
+theorem argsRun_noError_iff (diagsOf : CallArg → List Diag) (sees : CallArg → Bool) : ∀ args : List CallArg,
+    hasError (argsRun diagsOf sees args).1 = false ↔ ∀ a ∈ args, hasError (diagsOf a) = false
+  | [] => by simp [argsRun, hasError_nil]
+  | a :: as => by
+    simp only [argsRun, List.forall_mem_cons]
+    cases h : hasError (diagsOf a) with
+    | true => simp [h]
+    | false =>
+      simp only [Bool.false_eq_true, if_false, hasError_append, h, Bool.false_or, true_and]
+      exact argsRun_noError_iff diagsOf sees as
+
+theorem argsRun_sees (diagsOf : CallArg → List Diag) (sees : CallArg → Bool) : ∀ args : List CallArg,
+    (∀ a ∈ args, hasError (diagsOf a) = false) → (argsRun diagsOf sees args).2 = args.any sees
+  | [], _ => by simp [argsRun]
+  | a :: as, h => by
+    have ha := h a (List.mem_cons_self ..)
+    simp only [argsRun, ha, Bool.false_eq_true, if_false, List.any_cons]
+    rw [argsRun_sees diagsOf sees as (fun x hx => h x (List.mem_cons_of_mem _ hx))]
+
+/-- an actual parameter in entity scope resolves -/
+def ArgWF (env : Env) (s : Schema) (fuel : Nat) (e : Entity) : CallArg → Prop
+  | .lit => True
+  | .bare n => BareVisible s fuel e n ∨ GlobalVisible env s n
+  | .selfAttr a => AttrVisible s fuel e a
+
+theorem argDiags_noError_iff (p : String) (env : Env) (s : Schema) (fuel : Nat) (e : Entity) (r : Rule) (a : CallArg) :
+    hasError (argDiags p env s fuel e r a) = false ↔ ArgWF env s fuel e a := by
+  cases a with
+  | lit => simp [argDiags, ArgWF, hasError_nil]
+  | bare n =>
+    simp only [argDiags, ArgWF, BareVisible]
+    cases varFind s n fuel e.name with
+    | true => simp [hasError_nil]
+    | false =>
+      simp only [Bool.false_eq_true, if_false, false_or]
+      rw [← globalRef_isSome_iff p env s r n]
+      cases hg : globalRef p env s r n with
+      | some ds => simp [globalRef_noError p env s r n ds hg]
+      | none => simp only [Option.isSome_none, Bool.false_eq_true, iff_false, Bool.not_eq_false]; errsimp
+  | selfAttr a =>
+    simp only [argDiags, ArgWF, AttrVisible]
+    cases h : namedAttr s a fuel e.name with
+    | none => errsimp
+    | some b => cases b <;> errsimp
+
+theorem knownFunc_iff (s : Schema) (fn : String) : knownFunc s fn = true ↔ CallWF s fn := by
+  simp [knownFunc, CallWF]
+
+/-- a call with its arguments: the function exists, every argument resolves, and — in a domain rule — one of them refers to SELF
+    or an attribute -/
+def CallWithWF (env : Env) (s : Schema) (fuel : Nat) (e : Entity) (r : Rule) (fn : String) (args : List CallArg) : Prop :=
+  CallWF s fn ∧ (∀ a ∈ args, ArgWF env s fuel e a) ∧ (r.isWhere = true → ∃ a ∈ args, argSeesSelf s fuel e a = true)
+
+theorem callWith_noError_iff (p : String) (env : Env) (s : Schema) (fuel : Nat) (e : Entity) (r : Rule) (fn : String)
+    (args : List CallArg) : hasError (callWithDiags p env s fuel e r fn args) = false ↔ CallWithWF env s fuel e r fn args := by
+  simp only [callWithDiags, CallWithWF]
+  cases hk : knownFunc s fn with
+  | false =>
+    have hnw : ¬ CallWF s fn := by rw [← knownFunc_iff, hk]; simp
+    simp only [Bool.false_eq_true, if_false, callDiags_noError_iff, hnw, false_and]
+  | true =>
+    have hw : CallWF s fn := (knownFunc_iff s fn).mp hk
+    simp only [if_true, hasError_append, Bool.or_eq_false_iff, callDiags_noError_iff, hw, true_and, argsRun_noError_iff,
+      argDiags_noError_iff]
+    constructor
+    · rintro ⟨hargs, hself⟩
+      refine ⟨hargs, ?_⟩
+      intro hwh
+      have hs := argsRun_sees (argDiags p env s fuel e r) (argSeesSelf s fuel e) args
+        (fun a ha => (argDiags_noError_iff p env s fuel e r a).mpr (hargs a ha))
+      cases hr2 : (argsRun (argDiags p env s fuel e r) (argSeesSelf s fuel e) args).2 with
+      | true => rw [hs] at hr2; simpa [List.any_eq_true] using hr2
+      | false =>
+        rw [hr2] at hself
+        simp only [Bool.false_eq_true, if_false, missingSelf_noError_iff] at hself
+        rw [hself] at hwh; cases hwh
+    · rintro ⟨hargs, hself⟩
+      refine ⟨hargs, ?_⟩
+      have hs := argsRun_sees (argDiags p env s fuel e r) (argSeesSelf s fuel e) args
+        (fun a ha => (argDiags_noError_iff p env s fuel e r a).mpr (hargs a ha))
+      cases hr2 : (argsRun (argDiags p env s fuel e r) (argSeesSelf s fuel e) args).2 with
+      | true => simp [hasError_nil]
+      | false =>
+        simp only [Bool.false_eq_true, if_false, missingSelf_noError_iff]
+        cases hwh : r.isWhere with
+        | false => rfl
+        | true =>
+          obtain ⟨a, ha, hsa⟩ := hself hwh
+          rw [hs] at hr2
+          have : args.any (argSeesSelf s fuel e) = true := List.any_eq_true.mpr ⟨a, ha, hsa⟩
+          rw [this] at hr2; cases hr2
+
 /-- what one item of an expression of entity `e` must satisfy: a call names a function; `SELF.a` names a visible attribute; a
     bare identifier names a visible attribute or — outside domain rules, which must refer to SELF or an attribute — something
-    the schema scope knows; no group reference on a non-entity -/
+    the schema scope knows; no group reference on a non-entity; `SELF.a.f`: the operand knows the field; a call with arguments:
+    every argument resolves -/
 def RuleItemWF (env : Env) (s : Schema) (fuel : Nat) (e : Entity) (r : Rule) : RuleItem → Prop
   | .call fn _ => CallWF s fn
   | .selfAttr an => AttrVisible s fuel e an
   | .bareAttr an => BareVisible s fuel e an ∨ (r.isWhere = false ∧ GlobalVisible env s an)
   | .badGroup _ => False
   | .smallReal _ => True
+  | .dot a f ix => DotWF s fuel e a f ix
+  | .callWith fn args => CallWithWF env s fuel e r fn args
 
 theorem ruleItem_noError_iff (path : String) (env : Env) (s : Schema) (fuel : Nat) (e : Entity) (r : Rule) (it : RuleItem) :
     hasError (ruleItemDiags path env s fuel e r it) = false ↔ RuleItemWF env s fuel e r it := by
@@ -540,6 +743,8 @@ theorem ruleItem_noError_iff (path : String) (env : Env) (s : Schema) (fuel : Na
     | false => simpa using other
   | badGroup an => simp only [ruleItemDiags, RuleItemWF, iff_false]; errsimp
   | smallReal t => simp [ruleItemDiags, RuleItemWF, hasError]
+  | dot a f ix => exact dot_noError_iff path s fuel e r a f ix
+  | callWith fn args => exact callWith_noError_iff path env s fuel e r fn args
 
 /-! ### bad INVERSE -/
 
@@ -1025,15 +1230,68 @@ theorem typeRules_noError_iff (p : String) (s : Schema) : hasError (typeRuleDiag
   | bareAttr _ => simp [hasError_nil]
   | badGroup _ => simp [hasError_nil]
   | smallReal _ => simp [hasError_nil]
+  | dot _ _ _ => simp [hasError_nil]
+  | callWith _ _ => simp [hasError_nil]
 
-/-- the expressions of FUNCTION / RULE / CONSTANT `f`: every call names a function, every bare identifier is a parameter / local
-    of `f` or something the schema scope knows -/
+/-- an actual parameter inside an algorithm resolves -/
+def AlgArgWF (env : Env) (s : Schema) (f : Func) : CallArg → Prop
+  | .bare n => n ∈ f.locals ∨ GlobalVisible env s n
+  | _ => True
+
+theorem algArg_noError_iff (p : String) (env : Env) (s : Schema) (f : Func) (r : Rule) (a : CallArg) :
+    hasError (algArgDiags p env s f r a) = false ↔ AlgArgWF env s f a := by
+  cases a with
+  | lit => simp [algArgDiags, AlgArgWF, hasError_nil]
+  | selfAttr _ => simp [algArgDiags, AlgArgWF, hasError_nil]
+  | bare n =>
+    simp only [algArgDiags, AlgArgWF]
+    by_cases hl : n ∈ f.locals
+    · simp [hl, hasError_nil]
+    · simp only [hl, if_false, false_or]
+      rw [← globalRef_isSome_iff p env s r n]
+      cases hg : globalRef p env s r n with
+      | some ds => simp [globalRef_noError p env s r n ds hg]
+      | none => simp only [Option.isSome_none, Bool.false_eq_true, iff_false, Bool.not_eq_false]; errsimp
+
+/-- one item of an expression of FUNCTION / RULE / CONSTANT `f`: a call names a function (and its arguments resolve), a bare
+    identifier is a parameter / local of `f` or something the schema scope knows -/
+def AlgItemWF (env : Env) (s : Schema) (f : Func) : RuleItem → Prop
+  | .call fn _ => CallWF s fn
+  | .bareAttr n => n ∈ f.locals ∨ GlobalVisible env s n
+  | .callWith fn args => CallWF s fn ∧ ∀ a ∈ args, AlgArgWF env s f a
+  | _ => True
+
+theorem algItem_noError_iff (p : String) (env : Env) (s : Schema) (f : Func) (r : Rule) (it : RuleItem) :
+    hasError (algItemDiags p env s f r it) = false ↔ AlgItemWF env s f it := by
+  cases it with
+  | call fn argc => exact callDiags_noError_iff p s _ fn argc
+  | bareAttr n =>
+    simp only [algItemDiags, AlgItemWF]
+    by_cases hl : n ∈ f.locals
+    · simp [hl, hasError_nil]
+    · simp only [hl, if_false, false_or]
+      rw [← globalRef_isSome_iff p env s r n]
+      cases hg : globalRef p env s r n with
+      | some ds => simp [globalRef_noError p env s r n ds hg]
+      | none => simp only [Option.isSome_none, Bool.false_eq_true, iff_false, Bool.not_eq_false]; errsimp
+  | callWith fn args =>
+    simp only [algItemDiags, AlgItemWF]
+    cases hk : knownFunc s fn with
+    | false =>
+      have hnw : ¬ CallWF s fn := by rw [← knownFunc_iff, hk]; simp
+      simp only [Bool.false_eq_true, if_false, callDiags_noError_iff, hnw, false_and]
+    | true =>
+      have hw : CallWF s fn := (knownFunc_iff s fn).mp hk
+      simp only [if_true, hasError_append, Bool.or_eq_false_iff, callDiags_noError_iff, hw, true_and, argsRun_noError_iff,
+        algArg_noError_iff]
+  | selfAttr _ => simp [algItemDiags, AlgItemWF, hasError_nil]
+  | badGroup _ => simp [algItemDiags, AlgItemWF, hasError_nil]
+  | smallReal _ => simp [algItemDiags, AlgItemWF, hasError_nil]
+  | dot _ _ _ => simp [algItemDiags, AlgItemWF, hasError_nil]
+
+/-- the expressions of FUNCTION / RULE / CONSTANT `f` -/
 def AlgWF (env : Env) (s : Schema) (f : Func) : Prop :=
-  ∀ r ∈ f.body, ∀ it ∈ r.items,
-    match it with
-    | .call fn _ => CallWF s fn
-    | .bareAttr n => n ∈ f.locals ∨ GlobalVisible env s n
-    | _ => True
+  ∀ r ∈ f.body, ∀ it ∈ r.items, AlgItemWF env s f it
 
 theorem alg_noError_iff (p : String) (env : Env) (s : Schema) :
     hasError (algDiags p env s) = false ↔ ∀ f, Decl.func f ∈ s.decls → AlgWF env s f := by
@@ -1042,43 +1300,13 @@ theorem alg_noError_iff (p : String) (env : Env) (s : Schema) :
   · intro h f hf r hr it hit
     have := h (.func f) hf
     simp only [hasError_flatMap_false] at this
-    have := this r hr it hit
-    cases it with
-    | call fn argc => exact (callDiags_noError_iff p s _ fn argc).mp this
-    | bareAttr n =>
-      simp only [algItemDiags] at this
-      by_cases hl : n ∈ f.locals
-      · exact Or.inl hl
-      · right
-        rw [← globalRef_isSome_iff p env s r n]
-        simp only [hl, if_false] at this
-        cases hg : globalRef p env s r n with
-        | some ds => rfl
-        | none => rw [hg] at this; exfalso; revert this; errsimp
-    | selfAttr _ => trivial
-    | badGroup _ => trivial
-    | smallReal _ => trivial
+    exact (algItem_noError_iff p env s f r it).mp (this r hr it hit)
   · intro h d hd
     cases d with
     | func f =>
       simp only [hasError_flatMap_false]
       intro r hr it hit
-      have := h f hd r hr it hit
-      cases it with
-      | call fn argc => exact (callDiags_noError_iff p s _ fn argc).mpr this
-      | bareAttr n =>
-        simp only [algItemDiags]
-        by_cases hl : n ∈ f.locals
-        · simp [hl, hasError_nil]
-        · simp only [hl, if_false]
-          have hv : GlobalVisible env s n := by rcases this with h | h; exact absurd h hl; exact h
-          rw [← globalRef_isSome_iff p env s r n] at hv
-          cases hg : globalRef p env s r n with
-          | some ds => exact globalRef_noError p env s r n ds hg
-          | none => rw [hg] at hv; simp at hv
-      | selfAttr _ => rfl
-      | badGroup _ => rfl
-      | smallReal _ => rfl
+      exact (algItem_noError_iff p env s f r it).mpr (h f hd r hr it hit)
     | entity e => rfl
     | type t => rfl
     | syntaxError a b c => rfl
